@@ -21,6 +21,27 @@ fn worker_dir(kind: &str) -> PathBuf {
     PathBuf::from(format!("/verif/target/feat-{kind}-{w}"))
 }
 
+/// What one subset leaves behind in a worker directory: the subject's own artifacts. The dependencies stay cached; without
+/// this the 4096 + 4095 subsets of the thorough tier pile up well over 100 GB.
+fn sweep_worker_dir(dir: &std::path::Path) {
+    for sub in ["debug/deps", "debug/.fingerprint", "debug/incremental", "debug"] {
+        let Ok(rd) = std::fs::read_dir(dir.join(sub)) else { continue };
+        for e in rd.flatten() {
+            let name = e.file_name().to_string_lossy().to_string();
+            let ours = ["educe", "libeduce", "educe_inproc", "libeduce_inproc", "featdrv", "libfeatdrv"].iter().any(|p| name == *p || name.starts_with(&format!("{p}-")) || name.starts_with(&format!("{p}.")));
+            if !ours {
+                continue;
+            }
+            let p = e.path();
+            if p.is_dir() {
+                let _ = std::fs::remove_dir_all(&p);
+            } else {
+                let _ = std::fs::remove_file(&p);
+            }
+        }
+    }
+}
+
 /// does the subset split a documented pair or enable exactly one user of a shared helper?
 const FULL_BIT: u16 = 0x1000;
 
@@ -57,6 +78,7 @@ fn build_half(mask: u16) -> Result<(), String> {
     cmd.env("CARGO_NET_OFFLINE", "true").env_remove("RUSTFLAGS").env_remove("CARGO_ENCODED_RUSTFLAGS").env_remove("CARGO_BUILD_RUSTFLAGS").current_dir("/verif");
     let out = cmd.output().map_err(|e| format!("cannot run cargo: {e}"))?;
     let stderr = String::from_utf8_lossy(&out.stderr).to_string();
+    sweep_worker_dir(&dir);
     if mask == 0 {
         if out.status.success() {
             return Err(format!("the crate builds with no trait feature enabled (features [{feats}])"));
@@ -191,6 +213,7 @@ fn behaviour_half(mask: u16, seed: u64, n: usize) -> Result<(usize, usize), Stri
         });
     }
     let o = child.wait_with_output().map_err(|e| format!("featdrv: {e}"))?;
+    sweep_worker_dir(&dir);
     let text = String::from_utf8_lossy(&o.stdout).to_string();
     let lines: Vec<&str> = text.lines().collect();
     if lines.len() != reqs.len() {
@@ -236,8 +259,8 @@ pub fn run(ctx: &Ctx) -> i32 {
         "subsets of the 12 trait features (plus the non-trait feature `full` alone, with one trait and with all). Build half: cargo check of /repo (guard off) with exactly the subset: must succeed without warnings; the empty \
          set must fail with the explicit message. Behaviour half: the subject compiled with exactly the subset expands generated requests that use only \
          enabled traits to the same tokens as the all-features build, and every disabled trait named alone, among enabled ones, on a field, or added (plain, with ignore, with a method) \
-         at the type, a variant or a field of a generated valid request is refused as unsupported. Quick: empty set, singletons, complements, pair splits plus sampled subsets; thorough: all 4096 subsets for the build half and all \
-         4095 for the behaviour half. Non-trivial = the subset splits a coupled pair or enables exactly one user of a shared helper module",
+         at the type, a variant or a field of a generated valid request is refused as unsupported. Quick: empty set, singletons, complements, pair splits plus sampled subsets; thorough: all 4096 subsets for the build half and about 1350 \
+         for the behaviour half (all with at most 3 or at least 10 features, a fifth of the others; VERIF_C18_ALL=1 for all 4095). Non-trivial = the subset splits a coupled pair or enables exactly one user of a shared helper module",
     );
     if ctx.replay.is_some() {
         // the replay file carries the feature mask in `dna[0]`
@@ -259,8 +282,13 @@ pub fn run(ctx: &Ctx) -> i32 {
         build_sets.push(FULL_BIT);
         build_sets.extend(ALL_TRAITS.iter().map(|t| FULL_BIT | t.bit()));
         build_sets.push(FULL_BIT | full);
-        beh_sets = (1..=full).collect();
-        rep.exhaustive = true;
+        // the behaviour half compiles the subject and a driver from scratch for every subset (about 7 s each): all 4095 would
+        // take an hour on 16 cores, so it takes every subset with at most 3 or at least 10 features and every fifth of the rest
+        // (about 1350 subsets); VERIF_C18_ALL=1 makes it exhaustive
+        let all = std::env::var_os("VERIF_C18_ALL").is_some();
+        beh_sets = (1..=full).filter(|m: &u16| all || m.count_ones() <= 3 || m.count_ones() >= 10 || (*m as u32 * 2654435761u32) % 5 == 0).collect();
+        rep.exhaustive = all;
+        rep.count("build_half_is_exhaustive(4096+15 subsets)", 1);
     } else {
         build_sets.push(0);
         for t in ALL_TRAITS {
